@@ -149,26 +149,42 @@ def eq(it, a, b):
 
 
 def _fmt_eq_shortcut(it, a, b):
-    """Two strings that are each exactly the fixed-width digits of one formatted non-negative
-    integer (same base, same width): equal iff the integers are equal (formatting with a
-    fixed width is injective below base**width, which int_to_str established)."""
-    if not (isinstance(a, SStr) and isinstance(b, SStr)) or len(a.chars) != len(b.chars):
+    """Strings made of literal characters and fixed-width formatted non-negative integers, with
+    the same layout on both sides: equal iff the literals agree and the integers are equal
+    (fixed-width formatting is injective below base**width, which int_to_str established)."""
+    if not (isinstance(a, SStr) or isinstance(b, SStr)):
         return None
-    recs = []
-    for s in (a, b):
-        first = next((c for c in s.chars if not isinstance(c, int)), None)
-        if first is None:
-            return None
-        rec = it.ex.fmt_rec.get(first.get_id())
-        if rec is None or rec["neg"] or len(rec["chars"]) != len(s.chars):
-            return None
-        for x, y in zip(rec["chars"], s.chars):
-            if isinstance(x, int) != isinstance(y, int) or (isinstance(x, int) and x != y) or (not isinstance(x, int) and not x.eq(y)):
-                return None
-        recs.append(rec)
-    if recs[0]["base"] != recs[1]["base"]:
+    ca, cb = str_chars(a), str_chars(b)
+    if len(ca) != len(cb):
         return None
-    return mk_bool(recs[0]["mag"] == recs[1]["mag"])
+    conj, i, used = [], 0, False
+    n = len(ca)
+    while i < n:
+        x, y = ca[i], cb[i]
+        if isinstance(x, int) and isinstance(y, int):
+            if x != y:
+                return False
+            i += 1
+            continue
+        if isinstance(x, int) or isinstance(y, int):
+            return None  # a literal against a symbolic char: leave it to the general encoding
+        ra, rb = it.ex.fmt_rec.get(x.get_id()), it.ex.fmt_rec.get(y.get_id())
+        if ra is None or rb is None or ra["neg"] or rb["neg"] or ra["base"] != rb["base"] or len(ra["chars"]) != len(rb["chars"]):
+            return None
+        L = len(ra["chars"])
+        if i + L > n:
+            return None
+        for k in range(L):
+            for rec, cs in ((ra, ca), (rb, cb)):
+                u, v = rec["chars"][k], cs[i + k]
+                if isinstance(u, int) != isinstance(v, int) or (isinstance(u, int) and u != v) or (not isinstance(u, int) and not u.eq(v)):
+                    return None
+        conj.append(ra["mag"] == rb["mag"])
+        used = True
+        i += L
+    if not used:
+        return None
+    return mk_bool(And(*conj))
 
 
 def mk_bool_v(t):
